@@ -36,12 +36,12 @@ ASSUMPTIONS = OC.STUBS + [
     "weakening only the solver's own limit test is not a violation as long as the merit function's check_limits raises and solve() restores (the property is about accepted iterates)",
 ]
 BOUNDS = {
-    "quick": "a disabled target may carry rarely used options (optimize_log=True); kernel: _clip_to_max_steps for 2 and 3 knobs; solve()/step() with knobs x targets in {1x1, 2x1, 1x2}, one step, max_step on; one knob / one target disabled persistently or through "
+    "quick": "flag kernel: 41 spellings of enable/disable (ids, tags, names, regular expressions, lists, True/False, the deprecated methods) on a 3x3 problem - concrete enumeration; persistent disabling also through the deprecated spellings (disable_vary(tag=), disable_all_targets()+enable_targets(id=)); a disabled target may carry rarely used options (optimize_log=True); kernel: _clip_to_max_steps for 2 and 3 knobs; solve()/step() with knobs x targets in {1x1, 2x1, 1x2}, one step, max_step on; one knob / one target disabled persistently or through "
              "step(disable_vary= / disable_vary_name= / disable_target= / enable_*=); scenario step(); disable(vary); <hand change | reload(0)>; step() on 2x1",
     "thorough": "adds 2x2, two steps, n_bisections=1, symbolic weights for the limit clause",
 }
 OUTSIDE = c09.OUTSIDE
-REQUIRED_CLASSES = ["limits_checked", "max_step_checked", "disabled_knob_checked", "disabled_target_checked", "flags_restored", "kernel"]
+REQUIRED_CLASSES = ["limits_checked", "max_step_checked", "disabled_knob_checked", "disabled_target_checked", "flags_restored", "kernel", "flag_spellings"]
 REPLAY_REALS = ["fraction"]
 PROFILE_CASES = 2
 TASKS_PER_CHILD = 10
@@ -153,9 +153,112 @@ def run_kernel(ex, case):
         ex.samples.append({"kernel": "_clip_to_max_steps", "n": n})
 
 
+def run_flags(ex, case):
+    """Every spelling of enable / disable (ids, tags, names, regular expressions, lists, True / False, the
+    deprecated methods): the active flags and the masks the merit function reports must be those the spelling
+    denotes.  Concrete enumeration of spellings on a 3 x 3 problem (not a solver verdict); what a disabled knob /
+    target means for the steps is decided symbolically in the other cases."""
+    P = OC.Problem(ex, {"nk": 3, "nt": 3})
+    try:
+        opt = P.make_opt()
+    except (Abort, Inconclusive):
+        raise
+    except Exception:
+        raise Abort()
+    allv, allt = {0, 1, 2}, {0, 1, 2}
+    # (description, call, expected set of inactive knobs, expected set of inactive targets), starting all active
+    dis = [
+        ("disable(vary=1)", lambda o: o.disable(vary=1), {1}, set()),
+        ("disable(vary=[0, 2])", lambda o: o.disable(vary=[0, 2]), {0, 2}, set()),
+        ("disable(vary='vt1')", lambda o: o.disable(vary="vt1"), {1}, set()),
+        ("disable(vary='vt[01]')", lambda o: o.disable(vary="vt[01]"), {0, 1}, set()),
+        ("disable(vary=['vt0', 2])", lambda o: o.disable(vary=["vt0", 2]), {0, 2}, set()),
+        ("disable(vary='vt')", lambda o: o.disable(vary="vt"), set(), set()),            # full match only
+        ("disable(vary=True)", lambda o: o.disable(vary=True), allv, set()),
+        ("disable(vary_name='k2')", lambda o: o.disable(vary_name="k2"), {2}, set()),
+        ("disable(vary_name=['k0', 'k.'])", lambda o: o.disable(vary_name=["k0", "k."]), allv, set()),
+        ("disable(target=0)", lambda o: o.disable(target=0), set(), {0}),
+        ("disable(target='tt2')", lambda o: o.disable(target="tt2"), set(), {2}),
+        ("disable(target=[1, 'tt0'])", lambda o: o.disable(target=[1, "tt0"]), set(), {0, 1}),
+        ("disable(target=True)", lambda o: o.disable(target=True), set(), allt),
+        ("disable(target=2, vary=0, vary_name='k1')", lambda o: o.disable(target=2, vary=0, vary_name="k1"), {0, 1}, {2}),
+        ("disable_vary(id=1)", lambda o: o.disable_vary(id=1), {1}, set()),
+        ("disable_vary(id=[0, 1])", lambda o: o.disable_vary(id=[0, 1]), {0, 1}, set()),
+        ("disable_vary(tag='vt2')", lambda o: o.disable_vary(tag="vt2"), {2}, set()),
+        ("disable_vary(id=0, tag='vt2')", lambda o: o.disable_vary(id=0, tag="vt2"), {0, 2}, set()),
+        ("disable_vary(tag=['vt0', 'vt1'])", lambda o: o.disable_vary(tag=["vt0", "vt1"]), {0, 1}, set()),
+        ("disable_targets(id=2)", lambda o: o.disable_targets(id=2), set(), {2}),
+        ("disable_targets(tag='tt1')", lambda o: o.disable_targets(tag="tt1"), set(), {1}),
+        ("disable_targets(id=[0], tag='tt2')", lambda o: o.disable_targets(id=[0], tag="tt2"), set(), {0, 2}),
+        ("disable_all_vary()", lambda o: o.disable_all_vary(), allv, set()),
+        ("disable_all_targets()", lambda o: o.disable_all_targets(), set(), allt),
+        ("enable(vary=False)", lambda o: o.enable(vary=False), allv, set()),
+        ("enable(target=False)", lambda o: o.enable(target=False), set(), allt),
+    ]
+    # starting with everything inactive: (call, knobs active afterwards, targets active afterwards)
+    en = [
+        ("enable(vary=1)", lambda o: o.enable(vary=1), {1}, set()),
+        ("enable(vary='vt[12]')", lambda o: o.enable(vary="vt[12]"), {1, 2}, set()),
+        ("enable(vary_name='k0')", lambda o: o.enable(vary_name="k0"), {0}, set()),
+        ("enable(vary=True)", lambda o: o.enable(vary=True), allv, set()),
+        ("enable(target=[0, 'tt1'])", lambda o: o.enable(target=[0, "tt1"]), set(), {0, 1}),
+        ("enable(target=True)", lambda o: o.enable(target=True), set(), allt),
+        ("enable_vary(id=2)", lambda o: o.enable_vary(id=2), {2}, set()),
+        ("enable_vary(tag='vt0')", lambda o: o.enable_vary(tag="vt0"), {0}, set()),
+        ("enable_vary(id=[1], tag=['vt0'])", lambda o: o.enable_vary(id=[1], tag=["vt0"]), {0, 1}, set()),
+        ("enable_targets(id=1)", lambda o: o.enable_targets(id=1), set(), {1}),
+        ("enable_targets(tag='tt[02]')", lambda o: o.enable_targets(tag="tt[02]"), set(), {0, 2}),
+        ("enable_all_vary()", lambda o: o.enable_all_vary(), allv, set()),
+        ("enable_all_targets()", lambda o: o.enable_all_targets(), set(), allt),
+        ("disable(vary=False)", lambda o: o.disable(vary=False), allv, set()),
+        ("disable(target=False)", lambda o: o.disable(target=False), set(), allt),
+    ]
+
+    def flags(o):
+        v = {i for i, x in enumerate(o.vary) if not x.active}
+        t = {i for i, x in enumerate(o.targets) if not x.active}
+        mi = {i for i, b in enumerate(o._err.mask_input) if not b}
+        mo = {i for i, b in enumerate(o._err.mask_output) if not b}
+        return v, t, mi, mo
+    for desc, call, offv, offt in dis:
+        for x in list(opt.vary) + list(opt.targets):
+            x.active = True
+        try:
+            call(opt)
+        except (Abort, Inconclusive):
+            raise
+        except Exception as e:
+            ex.fail(f"{desc} raised {type(e).__name__}: {e}", {"spelling": desc})
+            return
+        OC.note(ex, "flag_spellings")
+        v, t, mi, mo = flags(opt)
+        if v != offv or t != offt or mi != offv or mo != offt:
+            ex.fail(f"{desc}: inactive knobs {sorted(v)} (mask {sorted(mi)}), inactive targets {sorted(t)} (mask {sorted(mo)}); the spelling denotes knobs {sorted(offv)}, targets {sorted(offt)}",
+                    {"spelling": desc})
+            return
+    for desc, call, onv, ont in en:
+        for x in list(opt.vary) + list(opt.targets):
+            x.active = False
+        try:
+            call(opt)
+        except (Abort, Inconclusive):
+            raise
+        except Exception as e:
+            ex.fail(f"{desc} raised {type(e).__name__}: {e}", {"spelling": desc})
+            return
+        OC.note(ex, "flag_spellings")
+        v, t, mi, mo = flags(opt)
+        if v != allv - onv or t != allt - ont or mi != v or mo != t:
+            ex.fail(f"{desc}: active knobs {sorted(allv - v)}, active targets {sorted(allt - t)}; the spelling denotes knobs {sorted(onv)}, targets {sorted(ont)}",
+                    {"spelling": desc})
+            return
+
+
 def run_case(ex, case):
     if case.get("mode") == "kernel":
         return run_kernel(ex, case)
+    if case.get("mode") == "flags":
+        return run_flags(ex, case)
     P = OC.Problem(ex, case)
     try:
         opt = P.make_opt()
@@ -180,6 +283,10 @@ def run_case(ex, case):
                 kwargs["disable_vary_name"] = [f"k{idx}"]
             elif how == "step_tag":
                 kwargs["disable_vary"] = [f"vt{idx}"]
+            elif how == "dep_tag":
+                opt.disable_vary(tag=f"vt{idx}")
+            elif how == "regex":
+                opt.disable(vary=f"vt[{idx}]")
         else:
             disabled_target = idx
             if how == "persistent":
@@ -188,6 +295,11 @@ def run_case(ex, case):
                 kwargs["disable_target"] = [idx]
             elif how == "step_tag":
                 kwargs["disable_target"] = [f"tt{idx}"]
+            elif how == "dep_id":
+                opt.disable_targets(id=idx)
+            elif how == "all_but":
+                opt.disable_all_targets()
+                opt.enable_targets(id=1 - idx)
     if case.get("enable_arg"):
         # knob/target persistently off, enabled for one call only
         kind, idx = case["enable_arg"]
@@ -252,7 +364,7 @@ def run_case(ex, case):
                               f"the disabled target {disabled_target} influences the least-squares inputs / penalties / knobs", det):
             return
         for (mat, rhs) in P.rec.svd_inputs:
-            nact = sum(1 for t in opt._err.targets if t.active) if how == "persistent" else P.NT - 1
+            nact = sum(1 for t in opt._err.targets if t.active) if how in ("persistent", "dep_id", "all_but") else P.NT - 1
             if np.asarray(mat).shape[0] != nact or len(rhs) != nact:
                 ex.fail(f"least-squares system has {np.asarray(mat).shape[0]} rows with target {disabled_target} disabled, expected {nact}", det)
                 return
@@ -281,6 +393,8 @@ def _base():
         {"tag": "1x2", "nk": 1, "nt": 2, "call": "step", "disable": ["target", 1], "how": "persistent", "optimize_log": [1]},
         {"tag": "1x2", "nk": 1, "nt": 2, "call": "step", "disable": ["target", 0], "how": "step_arg", "optimize_log": [0]},
         {"tag": "scen", "nk": 2, "nt": 1, "scenario": "hand"},
+        {"tag": "2x1", "nk": 2, "nt": 1, "call": "step", "disable": ["vary", 1], "how": "dep_tag"},
+        {"tag": "1x2", "nk": 1, "nt": 2, "call": "step", "disable": ["target", 0], "how": "all_but"},
     ]
     return cs
 
@@ -289,7 +403,7 @@ def cases(tier):
     import sys
     from symx import driver
     mod = sys.modules[__name__]
-    out = [{"mode": "kernel", "n": 2, "which": [1, 1]}, {"mode": "kernel", "n": 2, "which": [1, 0]},
+    out = [{"mode": "flags"}, {"mode": "kernel", "n": 2, "which": [1, 1]}, {"mode": "kernel", "n": 2, "which": [1, 0]},
            {"mode": "kernel", "n": 3, "which": [1, 1, 1]}, {"mode": "kernel", "n": 3, "which": [0, 1, 1]}]
     cs = _base()
     if tier != "quick":
